@@ -82,13 +82,15 @@ func (ledger *FinalityLedger[T]) GetFinality(key LedgerKey) (T, xerrors.XError) 
 func (ledger *FinalityLedger[T]) getFinality(key LedgerKey) (T, xerrors.XError) {
 	var emptyNil T
 
+	// An item that is set again after being removed (re-created, issue #58) exists in `gotItems`
+	// while its key is still in `removedKeys`: the re-created item must be found first.
+	if item, ok := ledger.finalityItems.getGotItem(key); ok {
+		return item, nil
+	}
+
 	// if the item is already removed, return xerrors.ErrNotFoundResult
 	if ledger.finalityItems.isRemovedKey(key) {
 		return emptyNil, xerrors.ErrNotFoundResult
-	}
-
-	if item, ok := ledger.finalityItems.getGotItem(key); ok {
-		return item, nil
 	}
 
 	if item, xerr := ledger.read(key); xerr != nil {
